@@ -17,7 +17,7 @@ TIMEOUT = {'quick': 900, 'thorough': 10000}
 from vlib.runner import config_name
 
 OPS = ['get_int', 'get_sec', 'get_uv', 'get_si', 'set_int', 'set_sec', 'del_int', 'del_sec', 'del_slice', 'ins_int', 'ins_sec', 'pop_int', 'pop_sec', 'pop', 'append', 'extend',
-       'add', 'mul', 'iadd', 'copy', 'remove', 'count', 'contains', 'find', 'index', 'sort', 'cmp', 'slice_get', 'set_si', 'set_slice', 'prod2', 'prod2', 'ins_uv', 'del_uv', 'pop_uv', 'remove_conc', 'reverse', 'imul', 'clear', 'key_again', 'key_again']
+       'add', 'mul', 'iadd', 'copy', 'remove', 'count', 'contains', 'find', 'index', 'sort', 'cmp', 'slice_get', 'set_si', 'set_slice', 'prod2', 'prod2', 'ins_uv', 'del_uv', 'pop_uv', 'remove_conc', 'reverse', 'imul', 'clear', 'key_again', 'key_again', 'eq_near']
 
 
 def shards(tier, seed):
@@ -125,6 +125,23 @@ def gen_history(rng, tp, length):
             hist.append([op, vs])
             if op != 'add':
                 p.extend(vs)
+        elif op == 'eq_near':
+            # equality with a list that differs in a way a shortcut (e.g. one aggregate test over all differences) would not see:
+            # field: differences (k, 10k) whose squares sum to a multiple of 101; integers: a difference of 2^8 or 2^15; fixed point: one unit in the last place
+            if n == 0 or (tp == 'fld' and n < 2):
+                continue
+            other = list(p)
+            i = rng.randrange(n)
+            if tp == 'fld':
+                j = rng.choice([x for x in range(n) if x != i])
+                k = rng.randrange(1, 10)
+                other[i] = (other[i] + k) % 101
+                other[j] = (other[j] + 10 * k) % 101
+            elif tp == 'int':
+                other[i] = other[i] + rng.choice([256, -256, 1 << 12, 3 << 8])
+            else:
+                other[i] = other[i] + rng.choice([1, -1]) / 256
+            hist.append([op, rng.choice(['eq', 'ne']), other])
         elif op == 'key_again':
             if n == 0:
                 continue
@@ -393,7 +410,7 @@ def make_program(tp, hist, log):
                 elif op == 'sort':
                     p.sort(reverse=h[1])
                     s.sort(reverse=h[1])
-                elif op == 'cmp':
+                elif op in ('cmp', 'eq_near'):
                     o = h[2]
                     so = mpc.seclist([mk(v) for v in o], T)
                     exp_res = int({'lt': p < o, 'le': p <= o, 'eq': p == o, 'ne': p != o, 'ge': p >= o, 'gt': p > o}[h[1]])
@@ -411,7 +428,7 @@ def make_program(tp, hist, log):
     return program
 
 
-SECRET_OPS = ('key_again', 'ins_uv', 'del_uv', 'pop_uv', 'remove_conc', 'get_sec', 'get_uv', 'get_si', 'set_sec', 'set_si', 'del_sec', 'ins_sec', 'pop_sec', 'remove', 'count', 'contains', 'find', 'index', 'sort', 'cmp')
+SECRET_OPS = ('eq_near', 'key_again', 'ins_uv', 'del_uv', 'pop_uv', 'remove_conc', 'get_sec', 'get_uv', 'get_si', 'set_sec', 'set_si', 'del_sec', 'ins_sec', 'pop_sec', 'remove', 'count', 'contains', 'find', 'index', 'sort', 'cmp')
 
 
 def run(shard, rec):
